@@ -42,8 +42,9 @@ func vhCanonical(msg []byte) []byte {
 // dpkg-sig version-4 layout with one tab line "md5 sha1 size name" per
 // payload member (digests recomputed here), the signed package passes
 // relic's own Verify with digest checking on, and a package with one payload
-// byte changed (symbolic position and value), or with a member added after
-// signing, does not.
+// byte changed (symbolic position and value), with a member added after
+// signing, or with a second member carrying the name of a signed one in
+// front of it, does not.
 func VH_C01_DebSignedMessageVerifies() {
 	// vh:stubbed
 	vhMaxLen(8192)
@@ -90,7 +91,20 @@ func VH_C01_DebSignedMessageVerifies() {
 	vhAssert(err == nil && len(sigs) == 1 && sigs["builder"] != nil, "own-signature-verifies-with-digest-checking")
 
 	// alterations after signing
-	switch vhConcretize(vhInt("alteration", 0, 1), 2) {
+	switch vhConcretize(vhInt("alteration", 0, 2), 3) {
+	case 2:
+		// a second member with the name of a signed one, placed in front of it
+		// (dpkg unpacks the first data member it meets)
+		got, _ := vhDebWalk(out)
+		var dup []vhDebMember
+		for _, m := range got {
+			if m.name == "data.tar" {
+				dup = append(dup, vhDebMember{"data.tar", []byte("evil")})
+			}
+			dup = append(dup, m)
+		}
+		_, err = Verify(bytes.NewReader(vhDeb(dup)), nil, false)
+		vhAssert(err != nil, "duplicate-member-name-rejected")
 	case 0:
 		tampered := append([]byte{}, out...)
 		at := bytes.Index(out, []byte("data.tar"))
